@@ -416,21 +416,82 @@ def check_operators(rep, prog, m):
     for n in need:
         rep.ob('R-EXH', 'Spectrum operator %s' % n, n in names, 'generated by the exec templates' if n in names else 'NOT generated: falls back to numpy.ma without the folding check / mask union', rel, 1,
                what='operator %s is overloaded' % n)
+    # what each generated operator does, for a masked-array operand and for any other operand: abstract execution (the methods
+    # may come from exec templates or from closure factories, and may use helpers)
+    from sa import miniexec as mx
+    from sa import alpha
+    known = alpha.load_table().get('__params__', {}).get(rel)
+    known = set(known) if known is not None else None
     for q, (fn, text) in sorted(gen.items()):
         name = q.split('.')[1]
         inplace = name.startswith('__i')
-        stm = fn.body
-        ok1 = isinstance(stm[0], ast.Expr) and ast.unparse(stm[0].value) == 'self._check_other_folding(other)'
-        t = ast.unparse(fn)
-        okm = 'numpy.ma.mask_or(self.mask, other.mask)' in t
-        if inplace:
-            okd = 'self.data.%s(other.data)' % name in t and 'self.data.%s(other)' % name in t and t.rstrip().endswith('return self')
-            okc = 'self.mask = numpy.ma.mask_or(self.mask, other.mask)' in t
-        else:
-            okd = 'newdata = self.data.%s(other.data)' % name in t and 'newdata = self.data.%s(other)' % name in t
-            okc = all(x in t for x in ('data_folded=self.folded', 'pop_ids=newpop_ids', 'extrap_x=extrap_x', 'mask_corners=False', 'check_folding=False', 'newmask = self.mask')) and 'return outfs' in t
-        rep.ob('R-TPL', 'Spectrum.%s' % name, ok1 and okm and okd and okc,
-               'folding check first: %s; masks OR-ed: %s; numpy operator %s applied to the data: %s; status/labels carried: %s' % (ok1, okm, name, okd, okc), rel, fn.lineno,
+        problems = []
+        n_paths = 0
+        for kind in ('masked', 'plain'):
+            def hook(nm, args, kwargs, kind=kind):
+                if nm == 'isinstance' and len(args) == 2 and mx.show(args[1]) in ('numpy.ma.masked_array', 'numpy.ma.MaskedArray', 'np.ma.masked_array'):
+                    return kind == 'masked'
+                if nm == 'getattr' and len(args) >= 2 and isinstance(args[1], str) and isinstance(args[0], mx.Sym):
+                    return mx.Sym('%s.%s' % (args[0].text, args[1]))
+                if nm == 'hasattr':
+                    return mx.Sym('hasattr(%s)' % ', '.join(mx.show(a) for a in args))
+                return NotImplemented
+
+            def attr_hook(base, attr):
+                if isinstance(base, mx.Sym) and base.text in ('self', 'other') and attr in ('pop_ids', 'extrap_x') and attr not in base.attrs:
+                    return mx.Sym('%s.%s' % (base.text, attr), attrs={'__notnone__': False})
+                return NotImplemented
+            it = mx.Interp(prog, m, call_hook=hook, attr_hook=attr_hook, known_functions=known)
+            try:
+                paths = it.run(fn, {'self': mx.Sym('self', truth=True), 'other': mx.Sym('other')})
+            except mx.Undecidable as e:
+                raise AnalysisError('operator %s is not recognised: %s' % (name, e))
+            n_paths += len(paths)
+            want_data = 'self.data.%s(%s)' % (name, 'other.data' if kind == 'masked' else 'other')
+            want_mask = 'numpy.ma.mask_or(self.mask, other.mask)' if kind == 'masked' else 'self.mask'
+            for outcome, events, dec in paths:
+                calls = [e for e in events if e[0] == 'call']
+                if not calls or calls[0][1] != 'self._check_other_folding' or [mx.show(a) for a in calls[0][2]] != ['other']:
+                    problems.append('%s operand: the folding check is not the first action' % kind)
+                    continue
+                datacalls = [e for e in calls if e[1] == 'self.data.%s' % name]
+                if len(datacalls) != 1 or [mx.show(a) for a in datacalls[0][2]] != ['other.data' if kind == 'masked' else 'other']:
+                    problems.append('%s operand: numpy operator %s is not applied once to the data (%s)' % (kind, name, [(e[1], [mx.show(a) for a in e[2]]) for e in datacalls]))
+                    continue
+                if inplace:
+                    msets = [mx.show(e[3]) for e in events if e[0] == 'setattr' and e[1] == 'self' and e[2] == 'mask']
+                    if kind == 'masked' and msets != [want_mask]:
+                        problems.append('masked operand: self.mask is set to %s' % msets)
+                    if kind == 'plain' and msets:
+                        problems.append('plain operand: self.mask is changed')
+                    if outcome[0] != 'return' or mx.show(outcome[1]) != 'self':
+                        problems.append('%s operand: does not return self' % kind)
+                    if any(e[0] == 'setattr' and e[1] == 'self' and e[2] == 'folded' for e in events):
+                        problems.append('%s operand: folding status changed' % kind)
+                    continue
+                ctor = [e for e in calls if e[1] in ('self.__class__.__new__', 'Spectrum.__new__', 'Spectrum')]
+                if len(ctor) != 1 or outcome[0] != 'return' or not mx.show(outcome[1]).startswith(ctor[0][1] + '('):
+                    problems.append('%s operand: the result is not a newly built Spectrum' % kind)
+                    continue
+                newfn = prog.func(SM, 'Spectrum.__new__')
+                pos = list(ctor[0][2])
+                if ctor[0][1].endswith('__new__'):
+                    pos = pos[1:]
+                try:
+                    it2 = mx.Interp(prog, m)
+                    it2.path = mx.Path([])
+                    b = {k: mx.show(v) for k, v in it2.bind(newfn, pos, ctor[0][3], skip_first=True).items()}
+                except mx.Undecidable as e:
+                    problems.append('%s operand: constructor arguments do not bind (%s)' % (kind, e))
+                    continue
+                exp = {'data': want_data, 'mask': want_mask, 'mask_corners': 'False', 'data_folded': 'self.folded', 'check_folding': 'False'}
+                diff = {k: (b.get(k), v) for k, v in exp.items() if b.get(k) != v}
+                if diff:
+                    problems.append('%s operand: result built with %s' % (kind, ', '.join('%s=%s (expected %s)' % (k, g, w) for k, (g, w) in sorted(diff.items()))))
+                if b.get('pop_ids') not in ('self.pop_ids', 'other.pop_ids') or b.get('extrap_x') not in ('self.extrap_x', 'None'):
+                    problems.append('%s operand: labels pop_ids=%s extrap_x=%s' % (kind, b.get('pop_ids'), b.get('extrap_x')))
+        rep.ob('R-TPL', 'Spectrum.%s' % name, not problems,
+               '%d paths executed abstractly for a masked-array and a plain operand%s' % (n_paths, '' if not problems else ': ' + '; '.join(sorted(set(problems))[:3])), rel, fn.lineno,
                what='generated operator checks folding, unions masks and keeps folding status, labels, extrap_x')
     cf = prog.func(SM, 'Spectrum._check_other_folding')
     t = ast.unparse(cf)
